@@ -166,7 +166,9 @@ def space_e(tier: str):
     leaves = [P("a", (), "lo"), P("b", ("very",), "hi"), P("c", ("not", "somewhat"), "lo"), P("a", ("any",), None)]
     rows = [(0.25, 0.625, 0.875), (0.625, 0.25, 0.125), (NAN, 0.5, 0.5)]
     weights = [None, "0.000", "0.250", "0.500"]
-    conss = [[("o1", (), "lo")], [("o1", (), "hi"), ("o2", ("very",), "lo")], [("o2", ("seldom",), "hi")]]
+    # (the last two: chains of two non-commuting hedges on one conclusion - applied from the term outwards)
+    conss = [[("o1", (), "lo")], [("o1", (), "hi"), ("o2", ("very",), "lo")], [("o2", ("seldom",), "hi")],
+             [("o1", ("not", "very"), "lo")], [("o1", (), "hi"), ("o2", ("seldom", "not"), "lo")]]
     pairs = [("AlgebraicProduct", "AlgebraicSum"), ("BoundedDifference", "EinsteinSum")]
     sizes = (1, 2, 3)
     for n in sizes:
@@ -322,7 +324,7 @@ def summarize(tier: str, seed: int, merged: dict) -> dict:
             "sub-spaces H (operators installed through Engine.configure by name / as objects, all 49 conjunction x implication pairs), G (two outputs of different kinds / ranges sharing ONE defuzzifier and operator instance), A (7x9x7x9 operator assignments x integral defuzzifiers), B (20x20 input/output shape terms, "
             "Takagi-Sugeno, Tsukamoto, inverse Tsukamoto), C (all 2^10 enabled-flag assignments), D (output variables in "
             "antecedents: 10 aggregations x 6 rule orders x 2 block orders x activation methods), E (all antecedent trees "
-            f"with <= {2 if tier == 'quick' else 3} leaves x 4 weights x 3 consequents x 2 operator pairs), F (16 activation "
+            f"with <= {2 if tier == 'quick' else 3} leaves x 4 weights x 5 consequents (incl. two-hedge conclusions) x 2 operator pairs), F (16 activation "
             "method/parameter settings) - each enumerated completely; rows per sub-space include interior, bounds, break "
             "points, out of range, +-inf, NaN. states = engines built, transitions = Engine.process calls, traces = "
             "reference pipeline steps compared; non-trivial = a rule fired with degree in (0,1) and an output is finite"
